@@ -1,0 +1,31 @@
+//go:build verif
+
+package banderwagon
+
+import (
+	"github.com/crate-crypto/go-ipa/bandersnatch"
+	"github.com/crate-crypto/go-ipa/bandersnatch/fp"
+)
+
+// VerifCoords returns the raw projective coordinates of p (verification only).
+func (p *Element) VerifCoords() (X, Y, Z fp.Element) {
+	return p.inner.X, p.inner.Y, p.inner.Z
+}
+
+// VerifFromCoords builds an element from raw projective coordinates without
+// any check (verification only).
+func VerifFromCoords(X, Y, Z fp.Element) Element {
+	return Element{inner: bandersnatch.PointProj{X: X, Y: Y, Z: Z}}
+}
+
+// VerifTable returns the live precomputed table of basis point i: its window
+// width and the windows themselves (not a copy; verification only).
+func (msm *MSMPrecomp) VerifTable(i int) (int, [][]bandersnatch.PointExtendedNormalized) {
+	return msm.precompPoints[i].windowSize, msm.precompPoints[i].windows
+}
+
+// VerifBatchProjToAffine exposes the batch conversion used by MultiExp
+// (verification only).
+func VerifBatchProjToAffine(points []bandersnatch.PointProj) []bandersnatch.PointAffine {
+	return batchProjToAffine(points)
+}
